@@ -531,26 +531,26 @@ func refFile(v *VPkg, provided []string) *File {
 				imps = append(imps, "go/constant", "go/token")
 			}
 			f.Vals = append(f.Vals, e)
-			usesPkg = true
+			usesPkg = usesPkg || (e.Form != "lit" && e.Pkg != "")
 		case "func":
 			if !o.Generic {
 				f.Vals = append(f.Vals, Entry{Key: o.Name, Form: "value", Pkg: pk, Name: nm})
-				usesPkg = true
+				usesPkg = usesPkg || pk != ""
 			}
 		case "var":
 			f.Vals = append(f.Vals, Entry{Key: o.Name, Form: "addr", Pkg: pk, Name: nm})
-			usesPkg = true
+			usesPkg = usesPkg || pk != ""
 		case "type":
 			if !o.Generic {
 				f.Typs = append(f.Typs, Entry{Key: o.Name, Form: "type", Pkg: pk, Name: nm})
-				usesPkg = true
+				usesPkg = usesPkg || pk != ""
 			}
 		case "iface":
 			if o.Generic || !o.MethodSet {
 				continue
 			}
 			f.Typs = append(f.Typs, Entry{Key: o.Name, Form: "type", Pkg: pk, Name: nm})
-			usesPkg = true
+			usesPkg = usesPkg || pk != ""
 			wn := mangle(v.ImportPath) + o.Name
 			f.Wraps = append(f.Wraps, Entry{Key: "_" + o.Name, Form: "wrap", Name: wn})
 			w := WType{Name: wn, Iface: o.Name}
@@ -587,7 +587,7 @@ func refFile(v *VPkg, provided []string) *File {
 		}
 	}
 	if usesPkg {
-		imps = append(imps, v.ImportPath)
+		imps = append(imps, v.ImportPath) // imported iff some binding names it (an unused import does not compile)
 	}
 	f.Imports = sortedSet(imps)
 	f.Tags = refTags(v)
